@@ -351,6 +351,12 @@ def run_setters(case):
             if fam in ("ES", "ES2"):
                 calls.append(await C.do_call(world, "write_setting:time", lambda: inv.write_setting("time", "2023-05-17T10:11:12")))
         calls.append(await C.do_call(world, "set_grid_export_limit", lambda: inv.set_grid_export_limit(rnd.choice([0, 1, 5000, 10000]))))
+        # overlapping pollers on the one object: the same command objects are issued while another is in flight
+        import asyncio
+        n = rnd.randint(2, 4)
+        for rec in await asyncio.gather(*[C.do_call(world, f"concurrent-poll:{i}", inv.read_runtime_data)
+                                          for i in range(n)]):
+            calls.append(rec)
 
     status, _ = C.run_world(world, main())
     violations = []
